@@ -441,6 +441,13 @@ func c08Node(r *Result, rng *rand.Rand, thorough bool) {
 			if err := validExchange(target, other); err != nil {
 				r.Violate("impl-violation", fmt.Sprintf("after %s the node no longer serves a valid sync: %v", what, err), "stuck:rpc:"+key, map[string]string{"what": what})
 			}
+			// ... and as the pulling side: insert the peer's events and create its own next event
+			seqBefore := target.n.VerifCore().Seq()
+			if err := validExchange(other, target); err != nil {
+				r.Violate("impl-violation", fmt.Sprintf("after %s the node can no longer pull from an honest peer: %v", what, err), "stuck-pull:rpc:"+key, map[string]string{"what": what})
+			} else if target.n.VerifCore().Seq() <= seqBefore {
+				r.Violate("impl-violation", fmt.Sprintf("after %s the node no longer creates events on a valid sync (seq stays %d)", what, seqBefore), "stuck-seq:rpc:"+key, map[string]string{"what": what})
+			}
 			for i, s := range deliveredBefore {
 				if i < len(target.app.bodies) && target.app.bodies[i] != s {
 					r.Violate("impl-violation", fmt.Sprintf("after %s delivered block %d changed", what, i), "block-changed:rpc", nil)
@@ -510,6 +517,19 @@ func c08Node(r *Result, rng *rand.Rand, thorough bool) {
 				itx.Signature = sg
 				hostile(fmt.Sprintf("a JoinRequest with signature %q", sg), "join-sig", &bnet.JoinRequest{InternalTransaction: itx})
 			}
+		}
+		// correctly signed join requests of strangers whose key is spelled in a non-canonical way
+		for _, style := range []string{"lower-case", "0x-prefix"} {
+			fresh := newParticipants(rng, 1)[0]
+			key := fresh.peer.PubKeyString()
+			if style == "lower-case" {
+				key = strings.ToLower(key)
+			} else {
+				key = "0x" + key[2:]
+			}
+			itx := hg.NewInternalTransactionJoin(*peers.NewPeer(key, "addr", "m"))
+			itx.Sign(fresh.key)
+			hostile(fmt.Sprintf("a correctly signed JoinRequest whose public key is spelled %s", style), "join-spelling", &bnet.JoinRequest{InternalTransaction: itx})
 		}
 		hostile("a FastForwardRequest", "ff-request", &bnet.FastForwardRequest{FromID: 77})
 		hostile("an unknown command", "unknown-cmd", &struct{ X int }{1})
